@@ -21,7 +21,7 @@ JOBS = int(os.environ.get('PYVC_JOBS', '14'))
 
 
 class VCResult:
-    __slots__ = ('verdict', 'backend', 'seconds', 'model', 'reason')
+    __slots__ = ('verdict', 'backend', 'seconds', 'model', 'reason', 'model_ref')
 
     def __init__(self, verdict, backend, seconds, model=None, reason=''):
         self.verdict = verdict      # 'unsat' | 'sat' | 'unknown'
@@ -29,6 +29,7 @@ class VCResult:
         self.seconds = seconds
         self.model = model
         self.reason = reason
+        self.model_ref = None
 
 
 def vc_solver(ob, timeout_ms):
@@ -62,7 +63,9 @@ def quick(ob):
     if r == z3.unsat:
         return VCResult('unsat', 'z3-api', dt)
     if r == z3.sat:
-        return VCResult('sat', 'z3-api', dt, model_dict(s.model()))
+        res = VCResult('sat', 'z3-api', dt, model_dict(s.model()))
+        res.model_ref = s.model()
+        return res
     return VCResult('unknown', 'z3-api', dt, reason=s.reason_unknown())
 
 
@@ -87,19 +90,120 @@ def run_cli(cmd, text, timeout):
 
 
 def slow(text, use_cvc5=True, slow_s=None):
+    """Race z3 and cvc5 as child processes; first definitive answer wins; both are killed at the budget."""
     slow_s = slow_s or SLOW_S
-    v, dt, info = run_cli([Z3_BIN, '-in', f'-T:{slow_s}'], text, slow_s + 5)
-    if v in ('sat', 'unsat'):
-        return v, 'z3-cli', dt, info
-    total = dt
-    if use_cvc5 and 'seq.nth' not in text:
-        t2 = '(set-logic ALL)\n' + text
-        v2, dt2, info2 = run_cli([CVC5_BIN, '--strings-exp', f'--tlimit={slow_s * 1000}'], t2, slow_s + 5)
-        total += dt2
-        if v2 in ('sat', 'unsat'):
-            return v2, 'cvc5-cli', total, info2
-        info = info + ' | cvc5: ' + info2
-    return 'unknown', 'z3+cvc5', total, info
+    t0 = time.time()
+    procs = {}
+    try:
+        procs['z3-cli'] = subprocess.Popen([Z3_BIN, '-in', f'-T:{slow_s}'], stdin=subprocess.PIPE, stdout=subprocess.PIPE,
+                                           stderr=subprocess.STDOUT, text=True)
+        procs['z3-cli'].stdin.write(text)
+        procs['z3-cli'].stdin.close()
+        if use_cvc5 and 'seq.nth' not in text:
+            procs['cvc5-cli'] = subprocess.Popen([CVC5_BIN, '--strings-exp', f'--tlimit={slow_s * 1000}'],
+                                                 stdin=subprocess.PIPE, stdout=subprocess.PIPE, stderr=subprocess.STDOUT, text=True)
+            procs['cvc5-cli'].stdin.write('(set-logic ALL)\n' + text)
+            procs['cvc5-cli'].stdin.close()
+        infos = {}
+        pending = dict(procs)
+        while pending and time.time() - t0 < slow_s + 5:
+            for name, p in list(pending.items()):
+                if p.poll() is not None:
+                    out = (p.stdout.read() or '').strip()
+                    first = out.splitlines()[0].strip() if out else ''
+                    del pending[name]
+                    if first in ('sat', 'unsat'):
+                        return first, name, time.time() - t0, out[:300]
+                    infos[name] = out[:200]
+            time.sleep(0.02)
+        return 'unknown', '+'.join(procs), time.time() - t0, str(infos) if infos else 'timeout (killed)'
+    finally:
+        for p in procs.values():
+            if p.poll() is None:
+                p.kill()
+            try:
+                p.stdout.close()
+            except Exception:
+                pass
+
+
+class TextModel:
+    """Model parsed from a CLI solver's (get-model) output; evaluates terms by substitution."""
+    def __init__(self, text):
+        self.vals = {}
+        import re
+        for m in re.finditer(r'\(define-fun\s+(\S+)\s+\(\)\s+(\w+)\s+((?:"(?:[^"]|"")*")|(?:\([^()]*\))|(?:[^\s()]+))\)', text):
+            name, sort, val = m.group(1), m.group(2), m.group(3)
+            name = name.strip('|')
+            try:
+                if sort == 'Int':
+                    v = val.replace('(', '').replace(')', '').replace(' ', '')
+                    self.vals[name] = z3.IntVal(int(v))
+                elif sort == 'Bool':
+                    self.vals[name] = z3.BoolVal(val == 'true')
+                elif sort == 'String':
+                    self.vals[name] = z3.StringVal(_unescape(val[1:-1]))
+                elif sort == 'Real':
+                    v = val.replace('(', ' ').replace(')', ' ').split()
+                    if v and v[0] == '/':
+                        self.vals[name] = z3.RealVal(v[1]) / z3.RealVal(v[2])
+                    elif v and v[0] == '-':
+                        self.vals[name] = -z3.RealVal(v[1])
+                    else:
+                        self.vals[name] = z3.RealVal(v[0])
+            except Exception:
+                pass
+
+    def eval(self, t, model_completion=True):
+        subs = []
+        for v in _free_consts(t):
+            n = v.decl().name()
+            if n in self.vals:
+                subs.append((v, self.vals[n]))
+            else:
+                s = v.sort()
+                if s == z3.IntSort():
+                    subs.append((v, z3.IntVal(0)))
+                elif s == z3.BoolSort():
+                    subs.append((v, z3.BoolVal(False)))
+                elif s == z3.StringSort():
+                    subs.append((v, z3.StringVal('')))
+                elif s == z3.RealSort():
+                    subs.append((v, z3.RealVal(0)))
+        return z3.simplify(z3.substitute(t, subs)) if subs else z3.simplify(t)
+
+
+def _unescape(s):
+    import re
+    s = s.replace('""', '"')
+    return re.sub(r'\\u\{([0-9a-fA-F]+)\}', lambda m: chr(int(m.group(1), 16)), s)
+
+
+def _free_consts(t):
+    seen = set()
+    out = []
+    stack = [t]
+    while stack:
+        x = stack.pop()
+        if x.get_id() in seen:
+            continue
+        seen.add(x.get_id())
+        if z3.is_const(x) and x.decl().kind() == z3.Z3_OP_UNINTERPRETED:
+            out.append(x)
+        elif z3.is_app(x):
+            stack.extend(x.children())
+        elif z3.is_quantifier(x):
+            stack.append(x.body())
+    return out
+
+
+def cli_model(text, backend, slow_s):
+    if backend == 'cvc5-cli':
+        t2 = '(set-logic ALL)\n(set-option :produce-models true)\n' + text + '\n(get-model)\n'
+        p = subprocess.run([CVC5_BIN, '--strings-exp', f'--tlimit={slow_s * 1000}'], input=t2, capture_output=True, text=True, timeout=slow_s + 5)
+    else:
+        p = subprocess.run([Z3_BIN, '-in', f'-T:{slow_s}'], input=text + '\n(get-model)\n', capture_output=True, text=True, timeout=slow_s + 5)
+    return TextModel(p.stdout or '')
 
 
 def discharge(obligations, thorough=False):
@@ -136,9 +240,18 @@ def discharge(obligations, thorough=False):
                 # recover a model in-process (bounded)
                 s = vc_solver(obligations[i], 20000)
                 m = None
+                mref = None
                 if s.check() == z3.sat:
-                    m = model_dict(s.model())
+                    mref = s.model()
+                    m = model_dict(mref)
+                else:
+                    try:
+                        mref = cli_model(texts[i][1], backend, slow_s)
+                        m = {k: str(v) for k, v in mref.vals.items()}
+                    except Exception:
+                        mref = None
                 results[i] = VCResult('sat', backend, dt, m, info)
+                results[i].model_ref = mref
             else:
                 results[i] = VCResult(v, backend, dt, None, info)
     return results
